@@ -2,6 +2,14 @@
 """Regenerates MANIFEST.json from the table below (kept as code so that the manifest is always valid)."""
 import json, subprocess
 CLAIMED = {
+ "C13": dict(technique="exhaustive enumeration of the selection grid plus property-based concurrency testing (rapid-drawn real-time schedules under the race detector) through the verif hook",
+             text="updateBest is enumerated over all pools of 1..3 (quick) / 1..4 (thorough, ~2x10^8 configurations) members x 56 member states x both strategies x previous choice x two id assignments against an oracle written from the property text; drawn real-time schedules of head bursts, steady sub-target traffic, waiters with timeouts and cancels, best-connection switches and BestMasterchainClient callers run under -race with GOMAXPROCS 1/2/16, followed by a sentinel probe that the pool is not blocked; an enumerated burst stress targets the notify/unsubscribe lock interplay. Liveness is judged as safety with generous real-time slack and a scheduler-lag guard. Exhaustive for the grid; sampling of interleavings for schedules.",
+             note="Hook: liteapi/pool/verif_hooks.go (build tag verif, add-only). Trusted: the fake connection type and the schedule oracle of harness/c13. A violation that needs one specific interleaving may stay unseen and may not replay; the full history and a goroutine dump are put in the replay file.",
+             design="DESIGN.md section 4 C13"),
+ "C17": dict(technique="property-based testing: round trips and differential comparison with independent reference encoders (own CRC16, base64, base32, shard arithmetic); exhaustive single-character substitution sweeps and prefix-length enumeration",
+             text="Account ids go through raw text, user-friendly form (all four flag combinations, both alphabets), JSON, TL and TL-B and back and are compared with bytes produced by an independent encoder; all 48 x 63 single-character substitutions of sampled user-friendly strings and all 55 x 31 of ADNL addresses must be rejected; every anycast depth 1..30 and every shard prefix length 0..63 is enumerated with sampled prefixes for parse/encode, account matching, block matching and parent/child inverses. Exhaustive in the enumerated dimensions, sampled in addresses.",
+             note="Trusted: harness/internal/addrref (no encoding-library imports; anchored to two public address strings and the CRC16 check value).",
+             design="DESIGN.md section 4 C17"),
  "C16": dict(technique="property-based testing: reference-written messages and generated transactions decoded by tongo, hash compared with an independent hasher; metamorphic equivalence classes for the normalised hash; every real transaction/message checked against the block's cell set",
              text="Messages are produced by an independent block.tlb writer, so the expected identity hash is known without tongo; decoding with/without caching hashers must report exactly that hash; the normalised hash is checked against the canonical re-encoding and as a metamorphic relation (invariant under source, fee, state-init, body placement; sensitive to destination and body). All ~1300 real transactions and ~2800 messages must report hashes of cells that occur in the block. Sampling for synthetic inputs, complete for the real data set.",
              note="Trusted: harness/internal/tlbref (message writer), R2 hasher, R3 parser. Synthetic transactions are encoded by tongo's own encoder (only the hash relation is asserted for them).",
